@@ -105,8 +105,9 @@ def run(tier, seed):
         real = peltool.prettyPrint(t, 34 if i % 2 else 29)
         ck.case(key=None)
         ck.count('raw line')
-        if real != r.text():
-            ck.disagree('prettyPrint differs from the model on raw text', {'op': 'pp', 'text': t, 'impl': real, 'model': r.text()})
+        mtxt = r.text()
+        if real != mtxt:
+            ck.disagree('prettyPrint differs from the model on raw text', {'op': 'pp', 'text': t, 'impl': real, 'model': mtxt})
     # loads: on the printed texts and on mutated texts
     ltexts = list(outs[:400 if not thorough else 2000])
     for o in outs[:300 if not thorough else 1500]:
